@@ -76,6 +76,13 @@ PUBLIC_ALIAS = {"_should_remove_handler": "should_remove_handler", "_spa_identif
                 "_client_identifier": "client_identifier", "_error_count": "total_error_count"}
 
 
+def as_tuple(v):
+    """a NamedTuple instance of the analysed program (a record with fields) read as the plain tuple it is"""
+    if isinstance(v, Obj) and "__fields__" in v.attrs:
+        return v._tuple()
+    return v
+
+
 def read_field(interp, rx, attr):
     """decoded field of a handler object: the attribute, or - when a refactoring moved it - the public
     property that exposes it (evaluated by interpretation)"""
@@ -742,7 +749,7 @@ def framing(ctx, repo):
     interp.call(repo.method(cname, "handle"), rx, [wire, ("1.2.3.4", 99)])
     interp.call_hook = None
     hfi = repo.method(cname, "handle")
-    p = rx.attrs.get("_parms")
+    p = as_tuple(read_field(interp, rx, "_parms"))
     ok = isinstance(p, tuple) and len(p) == 4 and p[0] == "1.2.3.4" and p[1] == 99 and p[2] == SymBytes.blob("G1") and p[3] == SymBytes.blob("G2")
     ctx.ob("R4", "handle::parms-orientation", ok, f"handle stores parms {p!r}, expected (sender ip, sender port, <SRCCN group>, <DESCN group>)", hfi.loc)
     ctx.ob("R4", "handle::content", rx.attrs.get("_packet_content") == SymBytes.blob("G3"), "handle does not keep the DATAS group as packet content", hfi.loc)
@@ -756,7 +763,7 @@ def framing(ctx, repo):
     try:
         interp.steps = 0
         interp.call(repo.method(cname, "handle"), rx2, [sb, ("1.2.3.4", 99)])
-        p2 = rx2.attrs.get("_parms")
+        p2 = as_tuple(read_field(interp, rx2, "_parms"))
         got = (p2[2] if isinstance(p2, tuple) and len(p2) == 4 else None, p2[3] if isinstance(p2, tuple) and len(p2) == 4 else None, read_field(interp, rx2, "_packet_content"))
     except PyRaise as e:
         got = (f"raises {e.what}",) * 3
@@ -961,8 +968,8 @@ def reply_addressing_model(ctx, repo, rule):
             interp.steps = 0
             interp.call(repo.method(cname, "handle"), rx, [frame, addr])
             want = (addr[0], addr[1], src, dst)
-            kept = read_field(interp, rx, "parms")
-            passed = seen[-1][1] if len(seen) == i + 1 else None
+            kept = as_tuple(read_field(interp, rx, "parms"))
+            passed = as_tuple(seen[-1][1]) if len(seen) == i + 1 else None
             kept = tuple(kept) if isinstance(kept, (list, tuple)) else kept
             passed = tuple(passed) if isinstance(passed, (list, tuple)) else passed
             if (kept != want or passed != want) and bad is None:
